@@ -60,13 +60,6 @@ Definition matches (f : fields) (c : civil) : bool :=
   field_match Doc.year_lo Doc.year_hi (fl_year f) y &&
   day_match f y m d.
 
-(* lexicographic order on civil tuples (most significant first) *)
-Definition civil_lt (a b : civil) : Prop :=
-  let '(y1, m1, d1, h1, i1, s1) := a in
-  let '(y2, m2, d2, h2, i2, s2) := b in
-  y1 < y2 \/ (y1 = y2 /\ (m1 < m2 \/ (m1 = m2 /\ (d1 < d2 \/ (d1 = d2 /\ (h1 < h2 \/ (h1 = h2 /\ (i1 < i2 \/ (i1 = i2 /\ s1 < s2))))))))).
-Definition civil_le (a b : civil) : Prop := a = b \/ civil_lt a b.
-
 (* ---- executable reference search (specification-level oracle for the correspondence check):
    the least matching civil tuple strictly after c, found by walking months and days in order.
    Obviously correct by construction; used only to cross-check model and implementation. ---- *)
